@@ -296,6 +296,76 @@ def ob_declared_raises(run, mir, rp, fam):
     run.samples.append({"obligation": ob.id, "paths": len(ends), "raises_loop_paths": n_loop, "body_paths": n_body})
 
 
+def ob_method_raises(run, mir, rp, fam):
+    ob = run.ob("method-raises-checked", "E2", "function_access (where the unifier resolves `receiver.method(..)` against the receiver's class), one iteration of the loop over "
+                "the receiver's classes: the exceptions the resolved method declares (`Function::raises`) are looked at - compared with what the call site "
+                "catches or declares - before the call is accepted; a method call is a call", ["function_access (loop body)"])
+    fn = e2.find1(mir, file="src/check/constrain/unify/function.rs", name="function_access")
+    ex = Exec(mir, max_paths=20000)
+    st = State()
+    args = []
+    for an, aty in fn.args:
+        t = aty.strip()
+        if t == "usize":
+            v = z3.BitVec("total", 64)
+        elif t.startswith("&") and not t.startswith("&[") and t != "&str":
+            v = Ref(ex.new_cell(st, opq(f"a{an}", t.lstrip("&").replace("mut ", "").strip())))
+        else:
+            v = opq(f"a{an}", t)
+        args.append(v)
+    ends = e2.run_kernel(run, ex, fn, args, st)
+    ff = e2.rust_struct("src/check/context/function/mod.rs", "Function")
+    claims, n = [], 0
+
+    def ids(t):
+        seen, stack = set(), [t]
+        while stack:
+            x = stack.pop()
+            if x.get_id() in seen:
+                continue
+            seen.add(x.get_id())
+            stack.extend(x.children())
+        return seen
+    for p in ends:
+        gets = [e_ for e_ in p.events if e_["name"].endswith("GetFun::fun")]
+        pushes = calls(p, "Constraints::push")
+        if not gets or not pushes:
+            continue
+        n += 1
+        s = p.state
+        fun = ex.project(s, ex.project(s, gets[-1]["ret"], ("v", "Ok")), ("f", 0), "Function")
+        raises = ex.to_val(s, ex.project(s, fun, ("f", ff.index("raises")), "Name"))
+        looked = any(raises.get_id() in ids(a) for e_ in p.events for a in e_["argvals"]) or any(raises.get_id() in ids(c) for c in p.cond if z3.is_expr(c))
+        claims.append(z3.Implies(conj(p.cond), z3.BoolVal(bool(looked))))
+    if not n:
+        raise Unsupported("no path resolves a method and queues its result")
+    cls = "class E(m: Str): Exception(m)\nclass A\n    def m(self) -> Int raise [E] => 1\n"
+    f = e2.Family(rp)
+    f.add("unhandled-in-function", cls + "def g(a: A) -> Int => a.m()", "reject")
+    f.add("unhandled-in-method", cls + "class B\n    def n(self, a: A) -> Int => a.m()", "reject")
+    f.add("unhandled-on-self", "class E(m: Str): Exception(m)\nclass A\n    def m(self) -> Int raise [E] => 1\n    def n(self) -> Int => self.m()", "reject")
+    f.add("unhandled-in-initialiser", cls + "def g(a: A) -> Int =>\n    def v := a.m()\n    v", "reject")
+    f.add("declared-by-caller", cls + "def g(a: A) -> Int raise [E] => a.m()", "accept")
+    f.add("handled-by-caller", cls + "def g(a: A) -> Int =>\n    a.m() handle\n        err: E => 0", "accept")
+    f.add("method-without-raises", "class A\n    def m(self) -> Int => 1\ndef g(a: A) -> Int => a.m()", "accept")
+
+    def replay(model):
+        k, bad = f.run()
+        if bad:
+            roles = sorted(b["role"] for b in bad)
+            return {"reproduced": True, "role": "method-raises-ignored:" + "+".join(roles), "failing_programs": roles,
+                    "detail": f"program {bad[0]['src']!r}: expected {bad[0]['expected']}, real verdict {bad[0]['got']}"}
+        return {"reproduced": False, "detail": f"all {k} programs behave as required"}
+    e2.prove(run, ob, ex, [], conj(claims), {}, replay)
+    if ob.status == "discharged":
+        r_ = replay({})
+        run.validated += len(f.items)
+        if r_["reproduced"]:
+            ob.status = "pending"
+            ob.inconclusive("method-raises family disagrees although the raises are looked at: " + r_["detail"])
+    run.samples.append({"obligation": ob.id, "resolving_paths": n})
+
+
 def run(run):
     mir = e2.load_mir(run)
     rp = common.Replay()
@@ -305,7 +375,7 @@ def run(run):
                "outside: hierarchy depth, the try/except translation (converter), declared raises of methods resolved in the unifier")
     run.trusted += ["rustc nightly MIR dump", "mirsym MIR semantics", "z3"]
     run.bounds = {"raised": 2, "caught": 2}
-    for f in (ob_check_raises, ob_handle_scope, ob_sites, ob_declared_raises):
+    for f in (ob_check_raises, ob_handle_scope, ob_sites, ob_declared_raises, ob_method_raises):
         try:
             f(run, mir, rp, fam)
         except Unsupported as e:
